@@ -63,7 +63,7 @@ func resScenario(p resParams) func() {
 					h.Release()
 					w.Wait(g)
 				}
-			case "crash", "deadline-silent":
+			case "crash", "deadline-silent", "crash-while-issuing":
 				if h.Node == 2 {
 					h.Release()
 					world.Block()
@@ -124,6 +124,7 @@ func resScenario(p resParams) func() {
 			}
 			w.Start(c)
 			mc.Quiesce()
+			var second *world.Call
 			switch p.ending {
 			case "cancel-while-queued":
 				// the request waits in the send buffer / at the hand-off behind the blocked sender when
@@ -152,6 +153,18 @@ func resScenario(p resParams) func() {
 				w.FW.Crash(world.Addr(2))
 				mc.Quiesce()
 				w.FW.Restart(world.Addr(2))
+			case "crash-while-issuing":
+				// node 2 goes down for good while the call waits for it, and a second call of the same
+				// kind is issued at that moment: the explorer interleaves the receiver's and the sender's
+				// handling of the failure with the hand-over of the second request
+				w.FW.Crash(world.Addr(2))
+				second = w.NewCall(p.kind)
+				second.NoSendWaiting = p.nsw
+				if single {
+					second.Node = 2
+				}
+				second.Verdict = c.Verdict
+				w.Start(second)
 			}
 			mc.Quiesce()
 			for i := 0; i < 4; i++ {
@@ -160,9 +173,12 @@ func resScenario(p resParams) func() {
 				}
 				mc.Quiesce()
 			}
-			if stream && (p.ending == "exhaustion" || p.ending == "handler-error" || p.ending == "crash" || p.ending == "send-fails") {
+			if stream && (p.ending == "exhaustion" || p.ending == "handler-error" || p.ending == "crash" || p.ending == "send-fails" || p.ending == "crash-while-issuing") {
 				// a stream call only ends through done, failure of all nodes or its context
 				c.Cancel(context.Canceled)
+				if second != nil {
+					second.Cancel(context.Canceled)
+				}
 				mc.Quiesce()
 			}
 			// every targeted node has answered (or its connection failed) by now, except a silent node
@@ -183,6 +199,17 @@ func resScenario(p resParams) func() {
 			if done, _ := callDone(c); !done {
 				fail("C18/call-not-done", key, "%s: round %d: the call has not completed", name, round)
 			}
+			if second != nil {
+				if done, _ := callDone(second); !done {
+					fail("C18/call-not-done", key, "%s: round %d: the second call has not completed", name, round)
+				}
+				// the node listens again before the next round
+				w.FW.Restart(world.Addr(2))
+				mc.Quiesce()
+				for i := 0; i < 4 && mc.FireTimers(nil) > 0; i++ {
+					mc.Quiesce()
+				}
+			}
 			if round > 1 && outstanding == 0 && (counts[0] != base[0] || counts[1] != base[1]) {
 				fail("C18/growth", key, "%s: bookkeeping grows from %v after round 1 to %v after round %d", name, base, counts, round)
 			}
@@ -202,7 +229,7 @@ func resInstances(tier string) []Instance {
 	if thorough(tier) {
 		kinds = append(kinds, k{"QuorumCallCombo", false}, k{"QuorumCallAsyncPerNodeArg", false}, k{"CorrectableStreamCombo", false}, k{"MulticastPerNodeArg", false})
 	}
-	endings := []string{"early-quorum", "exhaustion", "cancel-then-answer", "cancel-while-answering", "deadline-silent", "crash", "handler-error", "stream-end", "send-fails", "pre-cancelled", "cancel-while-queued"}
+	endings := []string{"early-quorum", "exhaustion", "cancel-then-answer", "cancel-while-answering", "deadline-silent", "crash", "handler-error", "stream-end", "send-fails", "pre-cancelled", "cancel-while-queued", "crash-while-issuing"}
 	for _, kd := range kinds {
 		for _, e := range endings {
 			if e == "stream-end" && !world.IsStream(kd.kind) {
@@ -219,7 +246,7 @@ func resInstances(tier string) []Instance {
 					continue
 				}
 				bound := 1
-				if thorough(tier) || (buf == 0 && (e == "crash" || e == "send-fails" || e == "cancel-then-answer" || (e == "cancel-while-answering" && world.IsStream(kd.kind)))) {
+				if thorough(tier) || (e == "crash-while-issuing" && buf == 0 && kd.kind == "QuorumCall") || (buf == 0 && (e == "crash" || e == "send-fails" || e == "cancel-then-answer" || (e == "cancel-while-answering" && world.IsStream(kd.kind)))) {
 					bound = 2
 				}
 				p := resParams{kind: kd.kind, nsw: kd.nsw, ending: e, rounds: 2, buf: buf}
@@ -235,7 +262,7 @@ func resInstances(tier string) []Instance {
 
 func init() {
 	register(&Check{ID: "C18",
-		Rule:        "9 call variants (13 thorough) x way of ending {quorum before all replies then the straggler answers, exhaustion, cancel then the nodes answer, cancel (an adversary thread) while the nodes answer, deadline with a node that stays silent, node crash + restart, handler error, stream end, the write itself failing (stream dies while the request is blocked in SendMsg on a full window), context already ended before the call, context ending while the request waits in the send buffer behind a blocked sender} x send buffer {0,1}, each call repeated twice on the same manager; after each round (back-off timers fired) the oracle reads the response-router count of every node through an accessor and the live per-call goroutines from the scheduler: zero once every targeted node has answered or its connection failed (one router per round only for a node that never answers), no growth between rounds; all schedules within the deviation bound; an outcome is the instance",
+		Rule:        "9 call variants (13 thorough) x way of ending {quorum before all replies then the straggler answers, exhaustion, cancel then the nodes answer, cancel (an adversary thread) while the nodes answer, deadline with a node that stays silent, node crash + restart, handler error, stream end, the write itself failing (stream dies while the request is blocked in SendMsg on a full window), context already ended before the call, context ending while the request waits in the send buffer behind a blocked sender, node going down for good while the call waits for it and a second call is being issued} x send buffer {0,1}, each call repeated twice on the same manager; after each round (back-off timers fired) the oracle reads the size of every per-message table of every node's channel (response routers and any other map, by reflection) through an accessor and the live per-call goroutines from the scheduler: zero once every targeted node has answered or its connection failed (one router per round only for a node that never answers), no growth between rounds; all schedules within the deviation bound; an outcome is the instance",
 		Gen:         resInstances,
 		Assumptions: []string{"router counts are read through an accessor added by overlay; goroutines are identified by their spawn site"},
 	})
